@@ -1,19 +1,40 @@
 // C03 driver: RemoveUnreachableStates, RemoveUselessStates, IsLangEmpty on one automaton per case.
 // case:   trim <T...>
 // output: U <T...> L <T...> E <0|1> I <T...>      (I = the operand re-read after the calls)
+// history: trimh <T...> { <mode> <nf> f1..fnf }*   after the calls on the first automaton, every stage derives a further object and the three
+//          calls are repeated on it:  mode 0 = selective copy (transitions, not final states) of the current object, then the given final states;
+//          1 = the current object itself after EraseFinalStates + the given final states; 2 / 3 = selective copy of the last result of
+//          RemoveUnreachableStates / RemoveUselessStates + the given final states; 4 = the last result of RemoveUselessStates as it is.
+//          output per stage:  V <T value of the object as read before the calls> U <T> L <T> E <0|1> I <T>
 #include "common.hh"
 using namespace vd;
+typedef VATA::ExplicitTreeAut Aut;
+static void calls(std::ostream& os, Aut& aut, Aut& u, Aut& l) {
+	u = aut.RemoveUnreachableStates();
+	l = aut.RemoveUselessStates();
+	bool e = aut.IsLangEmpty();
+	os << "U " << showTA(obsAut(u)) << " L " << showTA(obsAut(l)) << " E " << (e ? 1 : 0) << " I " << showTA(obsAut(aut));
+}
 int main() {
 	std::string line;
 	while (std::getline(std::cin, line)) {
 		guarded([&]() {
-			Toks t(line); t.expect("trim"); TA a = readTA(t);
-			VATA::ExplicitTreeAut aut = mkAut(a);
-			VATA::ExplicitTreeAut u = aut.RemoveUnreachableStates();
-			VATA::ExplicitTreeAut l = aut.RemoveUselessStates();
-			bool e = aut.IsLangEmpty();
+			Toks t(line); std::string kind = t.word(); TA a = readTA(t);
+			if (kind != "trim" && kind != "trimh") throw std::runtime_error("driver: unknown case kind");
 			std::ostringstream os;
-			os << "U " << showTA(obsAut(u)) << " L " << showTA(obsAut(l)) << " E " << (e ? 1 : 0) << " I " << showTA(obsAut(aut));
+			std::unique_ptr<Aut> cur(new Aut(mkAut(a))); Aut u, l;
+			calls(os, *cur, u, l);
+			while (kind == "trimh" && !t.done()) {
+				U mode = t.num(), nf = t.num(); std::vector<U> fin; for (U i = 0; i < nf; ++i) fin.push_back(t.num());
+				if (mode == 0) { std::unique_ptr<Aut> n(new Aut(*cur, true, false)); for (U f : fin) n->SetStateFinal(f); cur = std::move(n); }
+				else if (mode == 1) { cur->EraseFinalStates(); for (U f : fin) cur->SetStateFinal(f); }
+				else if (mode == 2) { std::unique_ptr<Aut> n(new Aut(u, true, false)); for (U f : fin) n->SetStateFinal(f); cur = std::move(n); }
+				else if (mode == 3) { std::unique_ptr<Aut> n(new Aut(l, true, false)); for (U f : fin) n->SetStateFinal(f); cur = std::move(n); }
+				else if (mode == 4) { cur.reset(new Aut(l)); }
+				else throw std::runtime_error("driver: unknown mode");
+				os << " V " << showTA(obsAut(*cur)) << ' ';
+				calls(os, *cur, u, l);
+			}
 			return os.str();
 		});
 	}
